@@ -1512,6 +1512,21 @@ void resize_entry()
             });
           }))
         check_grid<N>(e + "/rvalue", w() + " rvalue", rs, t, [&s](P<N> const &p) { return code_str<N>(p, inside(p, all<N>(0), s) ? "old" : "new"); });
+      // a NON-CONST lvalue source of cells whose move is visible: the result is the same and the source keeps its cells
+      // (documented: the new grid's shared cells are COPIES of the old grid's cells unless the old grid is an rvalue)
+      GS named = gs;
+      GS rn;
+      if (guarded(e + "/nonconst-lvalue", w() + " non-const lvalue", fresh, [&] {
+            rn = fg::resize(named, to_dim<std::size_t, N>(t), [](typename GS::pos const &p) {
+              tick();
+              return code_str<N>(from_vec<N>(p), "new");
+            });
+          }))
+      {
+        check_grid<N>(e + "/nonconst-lvalue", w() + " non-const lvalue", rn, t, [&s](P<N> const &p) { return code_str<N>(p, inside(p, all<N>(0), s) ? "old" : "new"); });
+        check_grid<N>(e + "/nonconst-lvalue/source-kept", w() + " source after the call", named, s, [](P<N> const &p) { return code_str<N>(p, "old"); });
+        VF_COUNT("resize/nonconst-lvalue-source");
+      }
     }
   }
 }
